@@ -15,6 +15,7 @@ pub mod c12;
 pub mod c13;
 pub mod crash;
 pub mod entries;
+pub mod fuzzdec;
 pub mod c14;
 pub mod c15;
 pub mod c16;
